@@ -15,9 +15,9 @@ G_J = [1048568, 1048572, 1048576, 1048580]
 G_BEYOND = [2097156]
 
 CLAUSES = {
-    'C03': {'nc': {'LabelsExact', 'TargetExact'}, 'c': {'LabelsExact', 'TargetExact'}, 'rel': set()},
+    'C03': {'nc': {'LabelsExact', 'TargetExact', 'AbsoluteTargetExact'}, 'c': {'LabelsExact', 'TargetExact', 'AbsoluteTargetExact'}, 'rel': set()},
     'C04': {'nc': set(), 'c': {'MeaningPreserved', 'PseudoExpansion', 'EveryInstructionLegal', 'TargetExact', 'LiLoadsValue',
-                               'ValueFromFinalLayout', 'DataUnchanged'}, 'rel': {'DataUnchanged'}},
+                               'ValueFromFinalLayout', 'DataUnchanged', 'AbsoluteTargetExact', 'LabelsExact'}, 'rel': {'DataUnchanged'}},
     'C08': {'nc': {'ValueFromFinalLayout'}, 'c': {'ValueFromFinalLayout'}, 'rel': set()},
     'C09': {'nc': {'InOrderNoGaps', 'InstrSize', 'DataSize', 'AlignMinimal', 'AlignZeros', 'LabelEmitsNothing', 'DataUnchanged', 'DataBytesExact'},
             'c': {'InOrderNoGaps', 'InstrSize', 'DataSize', 'AlignMinimal', 'AlignZeros', 'LabelEmitsNothing', 'DataUnchanged', 'DataBytesExact'},
@@ -28,9 +28,9 @@ CLAUSES = {
 
 # (class, max length, gap sets) per property and tier
 PLANS = {
-    'C03': {'quick': [('control', 3, [G_NEAR]), ('far', 4, [G_CJ, G_J]), ('far', 3, [G_CB, G_B, G_BEYOND])],
-            'thorough': [('control', 4, [G_NEAR, G_CB]), ('far', 4, [G_CB, G_CJ, G_B, G_J, G_BEYOND]), ('far', 5, [G_CJ])]},
-    'C04': {'quick': [('control', 4, [G_NEAR]), ('literals', 2, [[]]), ('far', 3, [G_CB, G_CJ, G_J])],
+    'C03': {'quick': [('control', 3, [G_NEAR]), ('far', 4, [G_CJ, G_J]), ('far', 3, [G_CB, G_B, G_BEYOND]), ('abs', 4, [[]])],
+            'thorough': [('control', 4, [G_NEAR, G_CB]), ('far', 4, [G_CB, G_CJ, G_B, G_J, G_BEYOND]), ('far', 5, [G_CJ]), ('abs', 5, [[]]), ('oddalign', 4, [[]])]},
+    'C04': {'quick': [('control', 4, [G_NEAR]), ('literals', 2, [[]]), ('far', 3, [G_CB, G_CJ, G_J]), ('abs', 3, [[]])],
             'thorough': [('control', 4, [G_NEAR, G_CB, G_CJ]), ('literals', 3, [[]]), ('far', 4, [G_CB, G_CJ, G_B, G_J])]},
     'C08': {'quick': [('values', 3, [G_NEAR, G_CJ]), ('values', 2, [G_J])],
             'thorough': [('values', 4, [G_NEAR]), ('values', 3, [G_CB, G_CJ, G_B, G_J])]},
@@ -222,6 +222,31 @@ def c09(run, scratch):
 
 def c12(run, scratch):
     run_plan(run, scratch, 'C12')
+    # constants and register aliases as operands (the use sites of ExprSpace): accepted without -c => accepted with -c
+    import checks_front
+    cfg = checks_front._cfg(scratch, 'es_sites', 'SPECIFICATION Spec\nCONSTANTS\n  Mode = "sites"\n  Wide = FALSE\nINVARIANT Export\nCHECK_DEADLOCK FALSE\n')
+    r = tlc.run('ExprSpace', cfg, workers=1, heap='2g', timeout=600)
+    run.add_tlc('ExprSpace sites', r)
+    sites = [(v[1], v[2]) for v in r.printed() if v and v[0] == 'U']
+    if len(sites) < 100:
+        raise tlc.TlcFailure('ExprSpace exported only %d use sites' % len(sites))
+    from concurrent.futures import ProcessPoolExecutor
+    by = {}
+    with ProcessPoolExecutor(max_workers=16) as ex:
+        for part in ex.map(checks_front._site_case, sites):
+            for site, v, d, compress, sa, oa, sb, ob in part:
+                by.setdefault((site, v, d), {})[compress] = (sa, sb)
+    n = 0
+    for (site, v, d), modes in by.items():
+        n += 1
+        for which, idx in (('literal', 0), ('constant', 1)):
+            if modes[False][idx] == 'ok' and modes[True][idx] != 'ok':
+                run.violation('CompressKeepsSuccess', {'mode': 'rel', 'origin': 'use-site', 'item': site, 'operand': which, 'c_status': 'err',
+                                                       'error': msg_class(str(modes[True][idx][-1]) if not isinstance(modes[True][idx], str) else modes[True][idx])},
+                              {'site': site, 'value': v, 'definition': d, 'operand_written_as': which, 'without_c': str(modes[False][idx])[:100], 'with_c': str(modes[True][idx])[:300]})
+    run.coverage['use_site_programs'] = n
+    run.coverage['traces_validated_against_impl'] += n
+    run.coverage['evaluations'] += 2 * n
 
 
 def c20(run, scratch):
